@@ -361,6 +361,11 @@ func (c *Config) validateCircuitBreaker() error {
 		if c.CircuitBreaker.IntervalSeconds <= 0 {
 			return fmt.Errorf("circuit breaker interval must be positive (got %d)", c.CircuitBreaker.IntervalSeconds)
 		}
+		// Fewer half-open trials than successes needed to close would leave the
+		// breaker half-open forever (0 means "use the default").
+		if c.CircuitBreaker.MaxRequests < 0 || (c.CircuitBreaker.MaxRequests > 0 && c.CircuitBreaker.MaxRequests < c.CircuitBreaker.SuccessThreshold) {
+			return fmt.Errorf("circuit breaker max requests (%d) must be at least the success threshold (%d)", c.CircuitBreaker.MaxRequests, c.CircuitBreaker.SuccessThreshold)
+		}
 	}
 	return nil
 }
